@@ -454,7 +454,7 @@ def replay_hashseed(payload):
 
 # ------------------------------------------------------------------ batch / evidence
 TIERS = {
-    "quick": {"runs": 2400, "chunk": 25, "wall_cap": 600, "hashseed_frac": 0.25, "hashseeds": [1, 4242]},
+    "quick": {"runs": 6000, "chunk": 50, "wall_cap": 900, "hashseed_frac": 0.25, "hashseeds": [1, 4242]},
     "thorough": {"runs": 40000, "chunk": 100, "wall_cap": 3400, "hashseed_frac": 0.5, "hashseeds": [1, 7, 4242]},
 }
 
@@ -465,7 +465,11 @@ def batch(task):
     tier = TIERS[task.get("tier", "quick")]
     agg = new_agg()
     for run in range(lo, hi):
-        res, program = one_run(seed, run, force_config=task.get("config"))
+        try:
+            res, program = runner.guarded(one_run, 120, seed, run, force_config=task.get("config"))
+        except (runner.RunTimeout, lang.HarnessError) as e:
+            agg["harness"].append({"run": run, "why": repr(e)[:200]})
+            continue
         fold(agg, res, program)
         if len(agg["violations"]) >= 12:
             break
